@@ -264,10 +264,14 @@ CHECKS = {
          'run), every part has equal lengths and only positions of the '
          'stream, the split terminates without exception; the label for an '
          'insertion in running text, a hard switch and an insertion in the '
-         'language in force; the threshold rule on three sections. Not a theorem: '
-         'the label under deeper nesting and the threshold rule on longer '
-         'section lists; decided by the nested-language generator oracle '
-         'and the differential run',
+         'language in force; the threshold rule on three sections; the '
+         'threshold pass on section lists of any length: every section in '
+         'exactly one returned part, whole, in order, only inserted material '
+         'between the sections of a part, one language per part, the table '
+         'lists each part under its language. Not a theorem: '
+         'the label under deeper nesting and which insertions the rule '
+         'selects on longer lists; decided by the nested-language generator '
+         'oracle and the differential run',
     ref='6/C12, 11.2', technique='Coq proof (conservation, positions, totality) '
          '+ nested-language generator + differential run'),
  'C17': dict(
